@@ -471,4 +471,142 @@ theorem ean8Modules_of_contents (s full : List Nat) (hc : stdWriterContents 8 s 
   simp only [k0, k4, draw8, segM, List.map_map]
   rfl
 
+theorem mk_zeros (n : Nat) : mk (n : Int) = .ok ([] ++ List.replicate n 0) := by
+  unfold mk
+  have h : ¬ ((n : Int) < 0) := by omega
+  simp [h]
+
+theorem se_sum : OneD.sumL refTables.startEnd = 3 := by decide
+theorem mid_sum : OneD.sumL refTables.middle = 5 := by decide
+
+when_kernel Gzx.Gen.K03w.ean8Encode in
+theorem ean8_same : @Gen.K03w.ean8Encode_body3 = @Gen.K03w.ean8Encode_body1 ∧
+    @Gen.K03w.ean8Encode_body4 = @Gen.K03w.ean8Encode_body2 := ⟨rfl, rfl⟩
+
+theorem segM_length (pats : Nat → List Nat) (c : Bool) : ∀ (k a : Nat), (segM pats c a k).length = segW pats a k := by
+  intro k
+  induction k with
+  | zero => intro a; simp [segM, segW]
+  | succ k ih =>
+    intro a
+    have := ih (a + 1)
+    simp only [segM, segW] at this ⊢
+    rw [List.range'_succ, List.map_cons, List.map_cons, List.flatten_cons, List.length_append, List.sum_cons, this,
+      appendPattern_length]
+
+theorem ean8Modules_err (s : List Nat) (h : stdWriterContents 8 s = .error .writer) :
+    ean8Modules refTables s = .error .writer := by
+  unfold ean8Modules; rw [h]; rfl
+
+/-- the drawing part of `ean8Encoder.encodeWithHints` on a complete digit string `full` (both arms of its length
+    switch end in it): goal `tryR (mk 67) … = .ok (b01 (draw8 full), false)` -/
+macro "ean8_tail " full:term ", " hd:term : tactic => `(tactic| (
+  obtain ⟨s1, s2, _, _⟩ := ean8_steps $full $hd
+  have w1 : segW (lPat $full) 0 4 = 28 := segW_const _ 7 4 0 (fun i _ hi => lPat_sum $full $hd i (by omega))
+  have w2 : segW (lPat $full) 4 4 = 28 := segW_const _ 7 4 4 (fun i _ hi => lPat_sum $full $hd i (by omega))
+  have hmk : mk (67 : Int) = .ok ([] ++ List.replicate 67 0) := by decide
+  simp only [hmk, tryR_ok, tbl_SE, tbl_MID]
+  rw [ap_at [] _ 0 _ true (by rfl)]
+  simp only [se_sum, List.length_replicate, Nat.reduceLeDiff, if_true, tryR_ok]
+  rw [draw_at (k := 4) (a := 0) (pats := lPat $full) (c := false) (hb := fun i _ hi => s1 i (by omega))]
+  rotate_left
+  · decide
+  · rfl
+  · simp [b01_length, appendPattern_length, se_sum]
+  simp only [drawn, w1, List.length_drop, List.length_replicate, Nat.reduceSub, Nat.reduceLeDiff, if_true, next_thenR]
+  rw [ap_at]
+  rotate_left
+  · simp [b01_length, appendPattern_length, se_sum, segM_length, w1]
+  simp only [mid_sum, List.length_drop, List.length_replicate, Nat.reduceSub, Nat.reduceLeDiff, if_true, tryR_ok]
+  rw [draw_at (k := 4) (a := 4) (pats := lPat $full) (c := true) (hb := fun i _ hi => s2 i (by omega))]
+  rotate_left
+  · decide
+  · rfl
+  · simp [b01_length, appendPattern_length, se_sum, mid_sum, segM_length, w1]
+  simp only [drawn, w2, List.length_drop, List.length_replicate, Nat.reduceSub, Nat.reduceLeDiff, if_true, next_thenR]
+  rw [ap_at]
+  rotate_left
+  · simp [b01_length, appendPattern_length, se_sum, mid_sum, segM_length, w1, w2]
+  simp only [se_sum, List.length_drop, List.length_replicate, Nat.reduceSub, Nat.reduceLeDiff, if_true, tryR_ok]
+  simp [draw8, b01_append]))
+
+theorem full_of_check (s : List Nat) (c : Int) (hc : eanChecksumB s = .ok c) (hd : allDigits (s ++ itoaSmall c) = true) :
+    (s ++ itoaSmall c).length = s.length + 1 := by
+  unfold itoaSmall at hd ⊢
+  split at hd
+  · simp [allDigits, isDigitByte] at hd
+  · rename_i h; simp [h]
+
+when_kernel Gzx.Gen.K03w.ean8Encode in
+/-- `ean8Encoder.encodeWithHints(contents)` for EVERY byte string: the model's `ean8Modules` (length switch, check digit
+    computed for 7 / verified for 8 characters, digit test, start guard, four L patterns, middle guard, four L patterns
+    in the other colour, end guard) as 0/1, or a WriterException -/
+theorem k_ean8Encode_eq (s : List Nat) (hs : ∀ b ∈ s, b < 256) :
+    Gen.K03w.ean8Encode (bytes s) = encRes (ean8Modules refTables s) := by
+  simp only [Gen.K03w.ean8Encode, len, bytes_length, ean8_same.1, ean8_same.2]
+  by_cases h8 : s.length = 8
+  · have c7 : ((s.length : Int) == 7) = false := by rw [beq_eq_false_iff_ne]; omega
+    have c8 : ((s.length : Int) == 8) = true := by rw [beq_iff_eq]; omega
+    simp only [c7, c8, Bool.false_eq_true, if_false, if_true, k_checkStandardUPCEANChecksum_eq s hs, tryR_ok,
+      k_checkNumeric_eq]
+    have hm : stdWriterContents 8 s = match checkStandardB s with
+        | .error _ => .error .writer
+        | .ok false => .error .writer
+        | .ok true => if allDigits s then .ok s else .error .writer := by
+      unfold stdWriterContents
+      simp only [h8, Nat.reduceAdd, Nat.reduceEqDiff, if_false, if_true]
+      rfl
+    cases hc : checkStandardB s with
+    | error e =>
+      rw [hc] at hm
+      simp only [ean8Modules_err s hm, encRes]; rfl
+    | ok b =>
+      rw [hc] at hm
+      cases b with
+      | false => simp only [ean8Modules_err s hm, encRes]; rfl
+      | true =>
+        by_cases hd : allDigits s = true
+        · simp only [hd, if_true] at hm
+          rw [ean8Modules_of_contents s s hm h8 hd]
+          simp only [hd, encRes, Bool.not_true, bne_self_eq_false, Bool.false_eq_true, if_false]
+          ean8_tail s, hd
+        · simp only [hd] at hm
+          simp only [ean8Modules_err s hm, encRes, hd]; rfl
+  · by_cases h7 : s.length = 7
+    · have c7 : ((s.length : Int) == 7) = true := by rw [beq_iff_eq]; omega
+      simp only [c7, if_true, k_getStandardUPCEANChecksum_eq s hs, tryR_ok]
+      have hm : stdWriterContents 8 s = match eanChecksumB s with
+          | .error _ => .error .writer
+          | .ok c => if allDigits (s ++ itoaSmall c) then .ok (s ++ itoaSmall c) else .error .writer := by
+        unfold stdWriterContents
+        simp only [h7, Nat.reduceAdd, if_true]
+        rfl
+      cases hc : eanChecksumB s with
+      | error e =>
+        rw [hc] at hm
+        simp only [ean8Modules_err s hm, encRes]; rfl
+      | ok c =>
+        rw [hc] at hm
+        obtain ⟨r1, r2⟩ := eanChecksumB_range s c hc
+        have hb : bytes s ++ itoa c = bytes (s ++ itoaSmall c) := by rw [itoa_small c r1 r2, bytes_append]
+        simp only [bne_self_eq_false, Bool.false_eq_true, if_false, hb, k_checkNumeric_eq, tryR_ok]
+        by_cases hd : allDigits (s ++ itoaSmall c) = true
+        · simp only [hd, if_true] at hm
+          have hl := full_of_check s c hc hd
+          rw [ean8Modules_of_contents s _ hm (by omega) hd]
+          simp only [hd, encRes, Bool.not_true, bne_self_eq_false, Bool.false_eq_true, if_false]
+          ean8_tail (s ++ itoaSmall c), hd
+        · simp only [hd] at hm
+          simp only [ean8Modules_err s hm, encRes, hd]; rfl
+    · have c7 : ((s.length : Int) == 7) = false := by rw [beq_eq_false_iff_ne]; omega
+      have c8 : ((s.length : Int) == 8) = false := by rw [beq_eq_false_iff_ne]; omega
+      have hm : stdWriterContents 8 s = .error .writer := by
+        unfold stdWriterContents
+        have n1 : ¬ s.length + 1 = 8 := by omega
+        simp only [n1, h8, if_false]
+      simp only [c7, c8, Bool.false_eq_true, if_false, ean8Modules_err s hm, encRes]
+
+example : Gen.K03w.ean8Encode (bytes [49, 50, 51, 52, 53, 54, 55]) = encRes (ean8Modules refTables [49, 50, 51, 52, 53, 54, 55]) :=
+  k_ean8Encode_eq _ (by decide)
+
 end Gzx.Obligations.K03w
